@@ -48,7 +48,13 @@ def writer_layouts(prog):
     """All path layouts of the fixed-column PQR line."""
     common = prog.func("structures.py", "Atom.get_common_string_rep").node
     pqr = prog.func("structures.py", "Atom.get_pqr_string").node
-    eng = Layout(DOMAINS, source_of)
+    def method_of(cls, meth):
+        ci = next(iter(prog.classes_by_name.get(cls, [])), None)
+        fi = prog.find_method(ci, meth) if ci is not None else None
+        return fi.node if fi is not None else None
+
+    eng = Layout(DOMAINS, source_of, consts={k: v for k, v in prog.module_env("structures.py").items() if isinstance(v, (int, str, dict))},
+                 method_of=method_of)
     body = [s for s in common.body if not (isinstance(s, ast.Expr) and isinstance(s.value, ast.Constant))]
     states = eng.run(body)
     finals = []
@@ -259,6 +265,10 @@ def check(prog, rep):
                         "char, |x|,|y|,|z| <= 99999.999, |q| < 10, 0 <= r < 10"]
     rep.not_decided += ["numeric rendering of individual values beyond width/precision"]
     rep.guarded(rule_model_atoms, prog, rep)  # first: a violation found on the model atoms stands even if the layouts below cannot be analysed
+    from .shared import rule_pqr_reader
+    n_rules, n_def = len(rep.rules), len(rep.deferred)
+    rep.guarded(rule_pqr_reader, prog, rep, "R6")
+    reader_modelled = len(rep.rules) > n_rules and len(rep.deferred) == n_def
     eng, finals = writer_layouts(prog)
     rep.analysed["layout_paths"] = len(finals)
     where = "pdb2pqr/structures.py (Atom.get_common_string_rep / get_pqr_string)"
@@ -333,19 +343,22 @@ def check(prog, rep):
                where)
 
     # ------------------------------------------------------------------ R3
-    r3 = rep.rule("R3", "token reader consumes fields in the order the writer emits them", floor=1)
+    r3 = rep.rule("R3", "token reader consumes fields in the order the writer emits them", floor=0 if reader_modelled else 1)
     worder = []
     for seg, *_ in offsets(max(finals, key=lambda f: len([s for s in f.result.segs if s.kind == 'fld' and s.src in FIELD_OF and s.chi > 0])).result):
         if seg.kind == "fld" and seg.src in FIELD_OF and FIELD_OF[seg.src] not in worder:
             worder.append(FIELD_OF[seg.src])
-    rorder = reader_order(prog)
-    rnorm = [a.rstrip("?") for a in rorder]
-    r3.add("order", rnorm == worder, f"writer emits {worder}; reader consumes {rorder}",
-           "pdb2pqr/structures.py (Atom.from_pqr_line)")
-    optional = [a for a in rorder if a.endswith("?")]
-    r3.add("optional-tokens", optional == ["chain_id?", "ins_code?"],
-           f"optional tokens recognised by failed numeric parse: {optional} (sound only if R2 separates them)",
-           "pdb2pqr/structures.py (Atom.from_pqr_line)")
+    if not reader_modelled:  # (with the reader decided on the writer's own lines by R6 the order of its statements is immaterial)
+        rorder = reader_order(prog)
+        rnorm = [a.rstrip("?") for a in rorder]
+        r3.add("order", rnorm == worder, f"writer emits {worder}; reader consumes {rorder}",
+               "pdb2pqr/structures.py (Atom.from_pqr_line)")
+        optional = [a for a in rorder if a.endswith("?")]
+        r3.add("optional-tokens", optional == ["chain_id?", "ins_code?"],
+               f"optional tokens recognised by failed numeric parse: {optional} (sound only if R2 separates them)",
+               "pdb2pqr/structures.py (Atom.from_pqr_line)")
+    else:
+        r3.info["decided_by"] = "R6 (reader evaluated on the writer's own lines)"
 
     # ------------------------------------------------------------------ R4
     r4 = rep.rule("R4", "format specs keep >=3 / >=4 / >=4 decimals for coordinates / charge / radius", floor=5)
@@ -359,8 +372,6 @@ def check(prog, rep):
         r4.add(f"precision|{FIELD_OF[src]}", bool(decs) and min(decs) >= need,
                f"{FIELD_OF[src]} formatted with specs {sp}; needs >= {need} decimals fixed-point", where)
     rule_chainflag(prog, rep)
-    from .shared import rule_pqr_reader
-    rep.guarded(rule_pqr_reader, prog, rep, "R6")
 
 
 def rule_chainflag(prog, rep):
@@ -378,8 +389,43 @@ def rule_chainflag(prog, rep):
                    f"print_biomolecule_atoms(..., chainflag={flag}); the chain column is written only when the flag is forwarded",
                    f"pdb2pqr/{rel}:{c.lineno} ({qual})")
     pba = prog.func("io.py", "print_biomolecule_atoms").node
-    fw = [U(k.value) for c in calls_in(pba) if U(c.func).endswith("get_pqr_string") for k in c.keywords if k.arg == "chainflag"]
-    r5.add("chainflag|printer", fw == ["chainflag"], f"print_biomolecule_atoms hands {fw} to get_pqr_string", f"pdb2pqr/io.py:{pba.lineno} (print_biomolecule_atoms)")
+    wp = f"pdb2pqr/io.py:{pba.lineno} (print_biomolecule_atoms)"
+    try:
+        verdict = printer_on_model(prog)
+        r5.add("chainflag|printer", not verdict, "print_biomolecule_atoms on model atoms of two chains: every record is the formatter's line for that atom under the "
+               "flag it was given, with and without --keep-chain" + (f" - NOT so: {verdict}" if verdict else ""), wp)
+    except AnalysisError:
+        fw = [U(k.value) for c in calls_in(pba) if U(c.func).endswith("get_pqr_string") for k in c.keywords if k.arg == "chainflag"]
+        r5.add("chainflag|printer", fw == ["chainflag"], f"print_biomolecule_atoms hands {fw} to get_pqr_string", wp)
+
+
+def printer_on_model(prog):
+    """io.print_biomolecule_atoms evaluated on model atoms; returns a description of the first discrepancy or ''."""
+    from ..guards import Flow, Obj
+    from ..objinterp import ObjRunner
+    keys = ("type", "serial", "name", "res_name", "chain_id", "res_seq", "ins_code", "x", "y", "z", "charge", "radius")
+    for flag in (False, True):
+        atoms = []
+        for rec in MODEL_ATOMS[:4]:
+            f = dict(zip(keys, rec))
+            atoms.append(Obj({"__class__": "Atom", "type": f["type"], "serial": f["serial"], "name": f["name"], "res_name": f["res_name"], "chain_id": f["chain_id"] or "Z",
+                              "res_seq": f["res_seq"], "ins_code": f["ins_code"], "x": f["x"], "y": f["y"], "z": f["z"], "ffcharge": f["charge"], "radius": f["radius"],
+                              "alt_loc": "", "occupancy": 1.0, "temp_factor": 0.0, "seg_id": "", "element": "", "charge": "", "residue": None}))
+        run = ObjRunner(prog, "io.py")
+        try:
+            lines = run.call_function("io.py", "print_biomolecule_atoms", list(atoms), flag)
+        except Flow as fl:
+            return f"stops with {fl.value}"
+        if not isinstance(lines, list):
+            raise AnalysisError("print_biomolecule_atoms did not return a list on the model")
+        recs = [ln for ln in "".join(lines).splitlines() if ln.startswith(("ATOM", "HETATM"))]
+        if len(recs) != len(atoms):
+            return f"{len(recs)} records for {len(atoms)} atoms (chainflag={flag})"
+        for k, (a, ln) in enumerate(zip(atoms, recs), start=1):
+            want = ObjRunner(prog, "structures.py").call(Obj({**a, "serial": k}), "get_pqr_string", chainflag=flag)
+            if ln != str(want).rstrip("\n"):
+                return f"chainflag={flag}: record {ln!r} is not the formatter's line {want!r}"
+    return ""
 
 
 # model atoms whose every field fits the columns of the format (values beyond them are R1's business): each row varies several fields
